@@ -6,6 +6,9 @@
 (* event: [ev |-> "x06", project, config |-> [dealloc |-> <<names>>,        *)
 (*         full_path |-> BOOLEAN], reported |-> <<[name, tid]>>, stage,     *)
 (*         panic]                                                           *)
+(* The replayed hand-written scenarios of mc/MC_UafWalk additionally carry  *)
+(* name, expect |-> <<[name, tid]>> and exact: where May = Must (exact) the *)
+(* reported set must equal the hand-derived expectation.                    *)
 EXTENDS UafWalk, Json, IOUtils, TLC
 Rec == ndJsonDeserialize(IOEnv.TRACE)
 VARIABLE l
@@ -24,6 +27,8 @@ Verdict(e) ==
            ELSE IF e.panic # "" THEN <<"panic", {}, {}>>
            ELSE IF ~(A.must \subseteq R) THEN <<"missing", A.must \ R, A.may>>
            ELSE IF ~(R \subseteq A.may) THEN <<"spurious", R \ A.may, A.may>>
+           ELSE IF "expect" \in DOMAIN e /\ e.exact /\ R # {<<e.expect[i].name, e.expect[i].tid>> : i \in DOMAIN e.expect}
+             THEN <<"hand-derived", R, A.may>>
            ELSE <<"ok", {}, {}>>
 
 Init == l = 1
